@@ -142,12 +142,138 @@ def gen_hmac(rng, tier):
     return cases
 
 
+def gen_chacha(rng, tier):
+    cases = []
+    U32 = 0xffffffff
+    # Crypt-only sequences around the 64-byte block boundary, counters including the wrap of the 32-bit block counter
+    lens = [0, 1, 31, 32, 33, 63, 64, 65, 66, 127, 128, 129, 191, 192, 193, 255, 256, 257]
+    for n in lens:
+        key = rbytes(rng, 32); d = rbytes(rng, n)
+        nf, ns = rng.choice([0, 1, U32, rng.randrange(1 << 32)]), rng.choice([0, 1, (1 << 64) - 1, rng.randrange(1 << 64)])
+        fr = fragmentations(rng, n, 64, 3 if tier == "quick" else 20)
+        if tier == "quick" and len(fr) > 12:
+            fr = fr[:4] + rng.sample(fr[4:], 8)
+        for f in fr:
+            ctr = rng.choice([0, 1, 2, U32 - 2, U32 - 1, U32, rng.randrange(1 << 32)])
+            ops = ",".join("c%d" % x for x in f) if f else "-"
+            cases.append("chacha20 %s %d %d %d %s %s" % (key, nf, ns, ctr, d, ops))
+    # mixed Crypt / Keystream sequences
+    for _ in range(150 if tier == "quick" else 4000):
+        key = rbytes(rng, 32); ops = []; total = 0
+        for _ in range(rng.randrange(1, 7)):
+            k = rng.choice([0, 1, 2, 31, 32, 33, 63, 64, 65, 127, 128, 129, rng.randrange(0, 200)])
+            if rng.random() < 0.5:
+                ops.append("c%d" % k); total += k
+            else:
+                ops.append("k%d" % k)
+        cases.append("chacha20 %s %d %d %d %s %s" % (key, rng.randrange(1 << 32), rng.randrange(1 << 64),
+                                                     rng.choice([0, 1, U32 - 1, U32, rng.randrange(1 << 32)]), rbytes(rng, total), ",".join(ops)))
+    # FSChaCha20: rekey every `interval` chunks
+    for interval in (1, 2, 3, 5, 224):
+        for _ in range(2 if tier == "quick" else 20):
+            nchunks = rng.choice([1, 2, 3, interval, interval + 1, 2 * interval + 1]) if interval < 50 else rng.choice([3, 230])
+            chunks = [rbytes(rng, rng.choice([0, 1, 3, 3, 3, 31, 32, 33, 64, 65, 100])) for _ in range(nchunks)]
+            cases.append("fschacha %s %d %s" % (rbytes(rng, 32), interval, ",".join(chunks)))
+    return cases
+
+
+def gen_poly(rng, tier):
+    cases = []
+    lens = [0, 1, 2, 14, 15, 16, 17, 18, 30, 31, 32, 33, 34, 47, 48, 49, 63, 64, 65, 100, 255, 256, 257]
+    special_keys = ["00" * 32, "ff" * 32, "ff" * 16 + "00" * 16, "00" * 16 + "ff" * 16,
+                    "0200000000000000000000000000000000000000000000000000000000000000",
+                    "01000000000000000400000000000000" + "00" * 16]
+    for n in lens:
+        for key in [rbytes(rng, 32), rng.choice(special_keys)]:
+            m = rbytes(rng, n) if rng.random() < 0.8 else ("ff" * n if n else "-")
+            fr = fragmentations(rng, n, 16, 3 if tier == "quick" else 20)
+            if tier == "quick" and len(fr) > 10:
+                fr = fr[:3] + rng.sample(fr[3:], 7)
+            for f in fr:
+                cases.append("poly1305 %s %s %s" % (key, m, chunks_str(f)))
+    # messages that drive the accumulator to the top of its range (all-ones blocks, r with all clamped bits set)
+    for n in (16, 32, 48, 64, 160):
+        cases.append("poly1305 %s %s %d" % ("ff" * 16 + rbytes(rng, 16), "ff" * n, n))
+        cases.append("poly1305 %s %s %d" % ("ff" * 32, "ff" * n, n))
+    for _ in range(20 if tier == "quick" else 1000):
+        n = rng.randrange(0, 2000)
+        m = rbytes(rng, n)
+        f = rng.choice(fragmentations(rng, n, 16, 2))
+        cases.append("poly1305 %s %s %s" % (rbytes(rng, 32), m, chunks_str(f)))
+    return cases
+
+
+def gen_aead(rng, tier):
+    cases = []
+    U32 = 0xffffffff
+    plens = [0, 1, 15, 16, 17, 31, 32, 33, 63, 64, 65, 127, 128, 129, 200]
+    alens = [0, 1, 12, 15, 16, 17, 32, 33]
+    for pl in plens:
+        for al in (alens if tier != "quick" else rng.sample(alens, 3)):
+            key = rbytes(rng, 32); aad = rbytes(rng, al); p = rbytes(rng, pl)
+            nf, ns = rng.choice([0, 1, U32, rng.randrange(1 << 32)]), rng.choice([0, (1 << 64) - 1, rng.randrange(1 << 64)])
+            for len1 in sorted(set([0, pl, pl // 2, min(pl, 1), min(pl, 63), min(pl, 64), min(pl, 65)])):
+                cases.append("aead_enc %s %d %d %s %s %d" % (key, nf, ns, aad, p, len1))
+            # round trip + single-bit tamperings of every class (every tag byte, some ciphertext / aad bits)
+            cases.append("aead_tamper %s %d %d %s %s %d none 0" % (key, nf, ns, aad, p, pl // 2))
+            for byte in range(16):
+                cases.append("aead_tamper %s %d %d %s %s %d tag %d" % (key, nf, ns, aad, p, pl // 2, 8 * byte + rng.randrange(8)))
+            for _ in range(3):
+                if pl:
+                    cases.append("aead_tamper %s %d %d %s %s %d ct %d" % (key, nf, ns, aad, p, rng.randrange(pl + 1), rng.randrange(8 * pl)))
+                if al:
+                    cases.append("aead_tamper %s %d %d %s %s %d aad %d" % (key, nf, ns, aad, p, rng.randrange(pl + 1), rng.randrange(8 * al)))
+    # decryption of arbitrary strings (almost surely rejected) incl. the shortest possible input
+    for n in (16, 17, 32, 80):
+        cases.append("aead_dec %s %d %d %s %s %d" % (rbytes(rng, 32), 5, 7, rbytes(rng, 3), rbytes(rng, n), 0))
+    # FSChaCha20Poly1305: packet sequences crossing the rekey boundary
+    for interval in (1, 2, 3, 4, 7):
+        for _ in range(2 if tier == "quick" else 30):
+            npk = rng.choice([1, interval, interval + 1, 2 * interval, 2 * interval + 1, 3 * interval + 2])
+            pk = ["%s:%s" % (rbytes(rng, rng.choice([0, 1, 3, 16, 33, 64, 70])), rbytes(rng, rng.choice([0, 0, 1, 16, 20]))) for _ in range(npk)]
+            cases.append("fsaead %s %d %s" % (rbytes(rng, 32), interval, ",".join(pk)))
+    cases.append("fsaead %s %d %s" % (rbytes(rng, 32), 224, ",".join("%s:-" % rbytes(rng, 3) for _ in range(226 if tier == "quick" else 700))))
+    return cases
+
+
+def gen_sip_sha3(rng, tier):
+    cases = []
+    U64 = (1 << 64) - 1
+    def key():
+        return rng.choice([0, 1, U64, rng.getrandbits(64), 0x0706050403020100])
+    # SipHash-2-4: every length 0..40, block / counter-wrap boundaries, fragments of 0,1,7,8,9 bytes
+    for n in list(range(0, 41)) + [63, 64, 65, 255, 256, 257, 263, 264, 265, 511, 512, 513, 1000]:
+        m = rbytes(rng, n)
+        fr = fragmentations(rng, n, 8, 2 if tier == "quick" else 12)
+        for f in ([fr[0]] + rng.sample(fr, min(len(fr), 3 if tier == "quick" else 10))):
+            cases.append("siphash %d %d %s %s" % (key(), key(), m, chunks_str(f)))
+    for n in (0, 8, 16, 24, 256, 264):
+        cases.append("siphash_w64 %d %d %s" % (key(), key(), rbytes(rng, n)))
+    for _ in range(20 if tier == "quick" else 500):
+        v = rbytes(rng, 32)
+        cases.append("siphash_u256 %d %d %s" % (key(), key(), v))
+        cases.append("siphash_u256x %d %d %s %d" % (key(), key(), v, rng.choice([0, 1, 0xffffffff, rng.getrandbits(32)])))
+        bl = [rbytes(rng, rng.choice([8, 32])) for _ in range(rng.randrange(0, 5))]
+        cases.append("siphash13uj %d %d %s" % (key(), key(), ",".join(bl) if bl else "-"))
+    # SHA3-256: 8-byte lane buffer and 136-byte rate boundaries
+    for n in list(range(0, 20)) + [127, 128, 129, 134, 135, 136, 137, 138, 143, 144, 145, 271, 272, 273, 407, 408, 409, 500]:
+        m = rbytes(rng, n)
+        fr = fragmentations(rng, n, 8, 2) + fragmentations(rng, n, 136, 2)
+        for f in ([fr[0]] + rng.sample(fr, min(len(fr), 4 if tier == "quick" else 16))):
+            cases.append("sha3 %s %s" % (m, chunks_str(f)))
+    for _ in range(4 if tier == "quick" else 100):
+        cases.append("keccakf %s" % rbytes(rng, 200))
+    cases.append("keccakf " + "00" * 200)
+    return cases
+
+
 def mk(name, gen):
     return Tie(name, "tie/drivers/crypto_drv.cpp", "Extract_Crypto.v", "crypto_driver.ml", gen,
                predicate="functional", nontrivial=lambda c: " - " not in c)
 
 
-TIES = [mk("sha256", gen_sha256), mk("hashes", gen_hashes), mk("hmac_hkdf", gen_hmac)]
+TIES = [mk("sha256", gen_sha256), mk("hashes", gen_hashes), mk("hmac_hkdf", gen_hmac),
+        mk("chacha20", gen_chacha), mk("poly1305", gen_poly), mk("aead", gen_aead), mk("siphash_sha3", gen_sip_sha3)]
 
 LEVEL_TEXT = ("Coq theorems for all inputs: the model of the C++ streaming hashers (bytes counter, partial-block buffer, the three phases of Write, "
               "the padding written by Finalize), proved once for any block size and compression function and instantiated for CSHA256, fed any "
